@@ -853,6 +853,8 @@ def _signatures(repo):
         elif name.startswith("__"):
             continue
         by.setdefault(name, set()).add(sig)
+        if fi.cls is not None and fi.name != "__init__":
+            by.setdefault("%s.%s" % (fi.cls.name, fi.name), set()).add(sig)
     # a class without an own __init__ has no entry; a class name that is also a function name is ambiguous by construction
     return {n: list(s)[0] for n, s in by.items() if len(s) == 1 and list(s)[0] is not None and n not in _COMMON_METHOD_NAMES}
 
@@ -899,6 +901,9 @@ def positional_calls(repo, ref):
             if sigs is None:
                 sigs = _signatures(repo)
             sig = sigs.get(name)
+            if sig is None and isinstance(c.func, ast.Attribute) and isinstance(c.func.value, ast.Name):
+                # Class.method(...): the class name disambiguates method names that several classes define
+                sig = sigs.get("%s.%s" % (c.func.value.id, name))
             if sig is None:
                 continue
             kw = {k.arg: k for k in c.keywords}
